@@ -229,3 +229,60 @@ def rule_tm4(ctx: Ctx):
             ra.ob(ok, lambda: mk_finding("AG-3", spec_d, None, {}, p, "the plain tee_map must complete exactly when all branches are done; it does: %s" % summary(p), extra="done"))
     r.require_instances(1)
     return [r, ra]
+
+
+def rule_tm5(ctx: Ctx) -> RuleResult:
+    """TM-5: the join table grows to (key[0] + 1) * n slots before a key is used."""
+    from .poly import RF, Poly, rf, strip_uid
+    r = RuleResult("TM-5", "tee_map join table: at key creation the tables are grown, in lock-step, to (key[0] + 1) * n slots")
+    site = ctx.site(REL, "_process_many.subscribe_mux")
+    spec = site.handler_specs("on_next")[0]
+    branch = next(iter(spec.bound.values()))
+    r.instances += 1
+    grew = False
+    for cfg in valuations(ctx.space(spec)):
+        zip_, comb = cfg.get("zip") == "True", cfg.get("combine") == "True"
+        if not (zip_ or comb) or (zip_ and comb):
+            continue
+        for p in ctx.paths(spec, "Create", cfg, max_iter=1):
+            r.paths += 1
+            its = [e for e in p.trace if e.k == "loopiter"]
+            fw = [m for m in mux_emissions(p) if m.event is not None and m.event.kind == "Create"]
+            if not fw:
+                continue
+            r.groups.add((spec.qualname, cfg_str(cfg), len(its)))
+            if not its:
+                continue
+            grew = True
+            it = its[0]
+            rng = it.iter
+            ok = rng is not None and rng[0] == "call" and rng[1] == ("builtin", "range") and len(rng[2]) == 1
+            cnt = rng[2][0] if ok else None
+            good = False
+            if cnt is not None:
+                q = rf(strip_uid(cnt))
+                n = RF(Poly.atom(("free", "n", site.short)))
+                n_atoms = [x for x in subterms(cnt) if x[0] == "free" and x[1] == "n"]
+                lens = [x for x in subterms(strip_uid(cnt)) if x[0] == "call" and x[1] == ("builtin", "len") and x[2][0][0] == "free" and x[2][0][1] in ("queue", "has_next")]
+                if q is not None and n_atoms and len(lens) == 1:
+                    N = RF(Poly.atom(strip_uid(n_atoms[0])))
+                    K = RF(Poly.atom(strip_uid(KEYIDX)))
+                    want = K.add(RF(Poly.const(1))).mul(N).add(RF(Poly.atom(lens[0])), -1)
+                    good = q.equals(want)
+            r.ob(good, lambda: mk_finding("TM-5", spec, "Create", cfg, p,
+                                          "the join tables must grow by (key[0] + 1) * n - len(table) slots so that the n slots of the new key exist; "
+                                          "the loop runs over %s" % (show(rng) if rng else None), node=it.node, extra="growth"))
+            pos = p.trace.index(it)
+            end = next((k for k in range(pos + 1, len(p.trace)) if p.trace[k].k in ("loopiter", "loopexit")), len(p.trace))
+            apps = {}
+            for e in p.trace[pos:end]:
+                if e.k == "mutate" and e.method == "append" and e.base[0] == "free":
+                    apps.setdefault(e.base[1], []).append(e)
+            r.ob(sorted(apps) == ["has_next", "queue"] and all(len(v) == 1 for v in apps.values()), lambda: mk_finding(
+                "TM-5", spec, "Create", cfg, p, "each growth step must append exactly one slot to queue and one to has_next; it appends %s" % {k: len(v) for k, v in apps.items()},
+                node=it.node, extra="lock-step"))
+            guard = [e for e in p.trace if e.k == "decision" and any(x == branch for x in subterms(e.test))]
+            r.ob(bool(guard), lambda: mk_finding("TM-5", spec, "Create", cfg, p, "growth is not tied to the single branch that forwards the creation", extra="guard"))
+    r.ob(grew, lambda: Finding("TM-5", "%s{growth}" % spec.qualname, spec.module.where(spec.fn), "the join tables are never grown when a key is created"))
+    r.require_instances(1)
+    return r
